@@ -303,3 +303,8 @@ mutant('C12-fromfile-cache', 'C12', 'R12.f', FF, "        fileData = np.loadtxt(
 mutant('C13-dot-buffer', ['C13'], 'R13.h', MA, "            data = np.einsum('lij,ljk->lik', self.data, other.data)\n            return MatrixArray(", "            if getattr(self,'_buf',None) is None:\n                self._buf = np.empty(self.data.shape)\n            data = np.einsum('lij,ljk->lik', self.data, other.data, out=self._buf)\n            return MatrixArray(")
 mutant('C13-getcopy-class', 'C13', 'R13.h', MA, "        return MatrixArray(length=self.length,rank=self.rank,data=np.copy(self.data),space=self.space,types=self.types)", "        return self.__class__(length=self.length,rank=self.rank,data=np.copy(self.data),space=self.space,types=self.types)")
 mutant('C15-sigma-prefix', 'C15', 'R15.s', DI, "            for t2 in self.types:", "            for t2 in self.types[:self.types.index(t1)+1]:")
+
+# R06.h: results cached on the object and re-used after a re-solve
+mutant('C06-gr-cache-reused', 'C06', 'R06.h', CA + 'pair_correlation.py', "    PRISM.pairCorr = PRISM.totalCorr + 1.0", "    if getattr(PRISM,'pairCorr',None) is not None:\n        return PRISM.pairCorr\n    PRISM.pairCorr = PRISM.totalCorr + 1.0")
+mutant('C06-sf-cache-reused', 'C06', 'R06.h', CA + 'structure_factor.py', "    structureFactor = (PRISM.totalCorr*PRISM.sys.density.pair + PRISM.omega)", "    if getattr(PRISM,'_sk',None) is None:\n        PRISM._sk = (PRISM.totalCorr*PRISM.sys.density.pair + PRISM.omega)\n    structureFactor = PRISM._sk * 1.0")
+twin('C06-twin-sf-store-only', ['C06', 'C05'], CA + 'structure_factor.py', "    return structureFactor", "    PRISM.last_structure_factor = structureFactor.get_copy()\n    return structureFactor")
